@@ -299,12 +299,10 @@ func exec(ops []string, o *vu.Out) {
 			if suffix != want {
 				o.Fail("", fmt.Sprintf("PublicSuffix(%q) = %q, the PSL algorithm over the rule list gives %q", domain, suffix, want))
 			} else if icann != nicann {
-				if icann && deepestNodeParentOnly(d) && !isIP {
-					o.Stat("region:flag-set-by-parent-only-node")
-					o.Fail("psl-icann-flag-set-by-parent-only-node", fmt.Sprintf("PublicSuffix(%q) = (%q, icann=true) but the prevailing rule is not an ICANN rule (icann=%v expected): the flag is overwritten by a trie node that exists only as a parent of longer rules", domain, suffix, nicann))
-				} else {
-					o.Fail("", fmt.Sprintf("PublicSuffix(%q) = (%q, icann=%v), the prevailing rule has icann=%v", domain, suffix, icann, nicann))
-				}
+				o.Fail("", fmt.Sprintf("PublicSuffix(%q) = (%q, icann=%v), the prevailing rule has icann=%v", domain, suffix, icann, nicann))
+			}
+			if !isIP && deepestNodeParentOnly(d) {
+				o.Stat("ps:walk-ends-at-parent-only-node")
 			}
 			switch {
 			case isIP:
